@@ -34,41 +34,67 @@ Proof.
   - exfalso. apply Hni. rewrite <- E. now apply in_map.
 Qed.
 
-(* the hand-over clause across a whole [pp] step *)
-Theorem pp_no_overtake l s s' ea eb :
-  Inv s -> pp l s s' ->
+(* The side condition under which the stored keys of the state BEFORE an action are the keys the
+   hand-over of that action goes by.  Since the repair of F16 the `finally` of acquire() - the
+   first thing a resumed waiter executes - may re-key entries of l (owning.propagate_priority up
+   the holder chain) before the same task, later in the same step, releases l.  That needs a task
+   that holds l and was itself suspended in acquire(): a waits-for cycle through l broken by a
+   cancellation (NoOvertakeExample.v, [cyc_*]).  [holder_free s l]: the holder of l is not
+   queued on any PriorityLock.  [calmf] is the same in terms of suspended frames. *)
+Definition holder_free (s : st) (l : nat) : Prop :=
+  forall o l0 f, lowner (getl s l) = Some o -> ~ In (f, o) (lwt (getl s l0)).
+Definition calmf (s : st) (l : nat) : Prop :=
+  forall t, lowner (getl s l) = Some t -> ~ acqfr (tframes s t).
+
+(* the hand-over clause across a whole action *)
+Theorem pp3_no_overtake l s s' ea eb :
+  Inv s -> pp3 l s s' -> calmf s l ->
   In ea (qa l s) -> In eb (qa l s) ->
   In (fo ea) (objs s' l) -> In (fo eb) (objs s' l) ->
   woken s (fo eb) = false -> woken s' (fo eb) = true -> fdone s' (fo ea) = false ->
   entry_lt qltb eb ea = true.
 Proof.
-  intros I (m & A & B) Ha Hb Ha' Hb' W0 W1 Da.
-  pose proof (p_len _ _ _ A) as Lm.
-  assert (Hra : fo ea < nf s) by (apply (Inv_bound s I l); now apply in_objs_qa).
-  assert (Hrb : fo eb < nf s) by (apply (Inv_bound s I l); now apply in_objs_qa).
-  assert (Wm : woken m (fo eb) = true) by (apply (q_wok _ _ _ B); auto; lia).
-  assert (Dm : fdone m (fo ea) = false).
-  { destruct (fdone m (fo ea)) eqn:D; auto. apply (q_done _ _ _ B) in D. congruence. }
-  assert (Hnd : NoDup (map fo (qa l s))).
-  { destruct (iB1 I l) as (_ & Hn & _). exact Hn. }
-  assert (Hin : forall e, In e (qa l s) -> In (fo e) (objs s' l) -> In e (qa l m)).
-  { intros e He He'. destruct (q_objs _ _ _ B _ He') as [H|H].
-    - rewrite objs_qa in H. apply in_map_iff in H as (e' & E & He2).
-      pose proof (p_sub _ _ _ A _ He2) as He3.
-      assert (e' = e) by (eapply nodup_map_inj; eauto). now subst e'.
-    - assert (fo e < nf s) by (apply (Inv_bound s I l); now apply in_objs_qa). lia. }
-  apply (p_min _ _ _ A); auto.
+  intros I (m & B & [A|(t & m0 & F & R & [A O])]) Hc Ha Hb Ha' Hb' W0 W1 Da.
+  - pose proof (p_len _ _ _ A) as Lm.
+    assert (Hra : fo ea < nf s) by (apply (Inv_bound s I l); now apply in_objs_qa).
+    assert (Hrb : fo eb < nf s) by (apply (Inv_bound s I l); now apply in_objs_qa).
+    assert (Wm : woken m (fo eb) = true) by (apply (q_wok _ _ _ B); auto; lia).
+    assert (Dm : fdone m (fo ea) = false).
+    { destruct (fdone m (fo ea)) eqn:D; auto. apply (q_done _ _ _ B) in D. congruence. }
+    assert (Hnd : NoDup (map fo (qa l s))).
+    { destruct (iB1 I l) as (_ & Hn & _). exact Hn. }
+    assert (Hin : forall e, In e (qa l s) -> In (fo e) (objs s' l) -> In e (qa l m)).
+    { intros e He He'. destruct (q_objs _ _ _ B _ He') as [H|H].
+      - rewrite objs_qa in H. apply in_map_iff in H as (e' & E & He2).
+        pose proof (p_sub _ _ _ A _ He2) as He3.
+        assert (e' = e) by (eapply nodup_map_inj; eauto). now subst e'.
+      - assert (fo e < nf s) by (apply (Inv_bound s I l); now apply in_objs_qa). lia. }
+    apply (p_min _ _ _ A); auto.
+  - (* entries of l were re-keyed by the `finally` of task t's acquire(): then no waiter of l is
+       woken in this action, because t would have to hold l *)
+    exfalso.
+    pose proof (r_len _ _ _ R) as L0. pose proof (p_len _ _ _ A) as Lm.
+    assert (Hrb : fo eb < nf s) by (apply (Inv_bound s I l); now apply in_objs_qa).
+    assert (Wm : woken m (fo eb) = true) by (apply (q_wok _ _ _ B); auto; lia).
+    destruct (q_objs _ _ _ B _ Hb') as [H|H]; [|lia].
+    rewrite objs_qa in H. apply in_map_iff in H as (e' & E & He').
+    pose proof (p_sub _ _ _ A _ He') as He0.
+    destruct (woken m0 (fo e')) eqn:W.
+    + apply (r_wok _ _ _ R) in W; [|now apply in_objs_qa]. rewrite E in W. congruence.
+    + assert (Ho : lowner (getl m0 l) = Some t).
+      { apply (o_own _ _ _ _ O e'); auto. now rewrite E. }
+      rewrite (r_own _ _ _ R) in Ho. exact (Hc t Ho F).
 Qed.
 
 Theorem action_no_overtake l s a ea eb :
-  Inv s -> action_ok s a -> action_ne s a ->
+  Inv s -> action_ok s a -> action_ne s a -> calmf s l ->
   In ea (qa l s) -> In eb (qa l s) ->
   In (fo ea) (objs (do_action s a) l) -> In (fo eb) (objs (do_action s a) l) ->
   woken s (fo eb) = false -> woken (do_action s a) (fo eb) = true ->
   fdone (do_action s a) (fo ea) = false ->
   entry_lt qltb eb ea = true.
 Proof.
-  intros I Hok Hne. apply pp_no_overtake; auto. now apply do_action_pp.
+  intros I Hok Hne Hc. apply pp3_no_overtake; auto. now apply do_action_pp.
 Qed.
 
 (* ------------------------------------------------------------ runs *)
@@ -132,34 +158,43 @@ Section Run.
     exists prio_loop, factor, draws, lks, cds, nev, (firstn k acts). auto.
   Qed.
 
+  Lemma holder_free_calm l k : holder_free (T k) l -> calmf (T k) l.
+  Proof.
+    intros H t Ho (l0 & f & had & Hin). pose proof (reachable_ne_WInv _ (T_reach k)) as W.
+    destruct (w_frame W t l0 f had (or_introl Hin)) as (u & Hu & _ & _ & Hn).
+    rewrite (Hn eq_refl) in Hu. exact (H t l0 f Ho Hu).
+  Qed.
+
   (* the step: if action k hands l over to b while a is waiting before and after, then b's entry
-     is (key, arrival)-less than a's, keys and arrival numbers as queued before the action *)
+     is (key, arrival)-less than a's, keys and arrival numbers as queued before the action -
+     provided the holder of l is not itself queued on a PriorityLock in that state *)
   Theorem no_overtake_keys l fa fb k ea eb :
-    k < length acts ->
+    k < length acts -> holder_free (T k) l ->
     In ea (qa l (T k)) -> fo ea = fa -> In eb (qa l (T k)) -> fo eb = fb ->
     In fa (objs (T (S k)) l) -> fdone (T (S k)) fa = false ->
     granted_at T l fb k ->
     (epri eb < epri ea)%Q \/ ((epri eb == epri ea)%Q /\ (eseq eb < eseq ea)%Z).
   Proof.
-    intros Hk Ha Efa Hb Efb Ha' Da (_ & Hb' & D0 & W1). subst fa fb.
+    intros Hk HF Ha Efa Hb Efb Ha' Da (_ & Hb' & D0 & W1). subst fa fb.
     pose proof (pending_not_woken _ _ D0) as W0.
     destruct (tr_step k acts s0 Hk) as (a & E & A1 & A2). fold T in E, A1, A2.
     apply elt_q_true. apply (action_no_overtake l (T k) a ea eb); auto; try (rewrite <- E; auto).
-    apply T_inv.
+    - apply T_inv.
+    - now apply holder_free_calm.
   Qed.
 
   (* ... hence, when the keys of the live entries are the current effective priorities
      ([keyed], the domain of C12), b was at least as urgent as a at that moment, and if
      equally urgent it had arrived earlier *)
   Theorem no_overtake_step l fa qa_ fb qb k :
-    k < length acts -> keyed (T k) l ->
+    k < length acts -> holder_free (T k) l -> keyed (T k) l ->
     waits_at (T k) l fa qa_ -> waits_at (T (S k)) l fa qa_ ->
     queued_at (T k) l fb qb -> granted_at T l fb k ->
     (waiter_prio (T k) l fb < waiter_prio (T k) l fa)%Q \/
     ((waiter_prio (T k) l fb == waiter_prio (T k) l fa)%Q /\ (qb < qa_)%Z).
   Proof.
-    intros Hk K [(ea & Ha & Efa & Eqa) Da0] [Qa' Da1] (eb & Hb & Efb & Eqb) G.
-    pose proof (no_overtake_keys l fa fb k ea eb Hk Ha Efa Hb Efb (queued_objs _ _ _ _ Qa') Da1 G) as H.
+    intros Hk HF K [(ea & Ha & Efa & Eqa) Da0] [Qa' Da1] (eb & Hb & Efb & Eqb) G.
+    pose proof (no_overtake_keys l fa fb k ea eb Hk HF Ha Efa Hb Efb (queued_objs _ _ _ _ Qa') Da1 G) as H.
     assert (La : live (T k) ea) by (unfold live; fold (fo ea); now rewrite Efa).
     assert (Lb : live (T k) eb).
     { unfold live. fold (fo eb). rewrite Efb. apply G. }
@@ -178,16 +213,17 @@ Section Run.
   Theorem no_overtake l fa qa_ fb i j :
     j < length acts ->
     waits_through T l fa qa_ i (S j) ->
+    (forall k, i <= k <= j -> holder_free (T k) l) ->
     (forall k, i <= k <= j -> keyed (T k) l) ->
     (forall k, i <= k <= j -> In fb (objs (T k) l) ->
                (waiter_prio (T k) l fa < waiter_prio (T k) l fb)%Q) ->
     forall k, i <= k <= j -> ~ granted_at T l fb k.
   Proof.
-    intros Hj Wa K Hlt k Hk G.
+    intros Hj Wa HF K Hlt k Hk G.
     assert (Hq : In fb (objs (T k) l)) by apply G.
     pose proof Hq as Hq'. rewrite objs_qa in Hq'. apply in_map_iff in Hq' as (eb & Efb & Hb).
     assert (Qb : queued_at (T k) l fb (eseq eb)) by (exists eb; auto).
-    pose proof (no_overtake_step l fa qa_ fb (eseq eb) k ltac:(lia) (K k Hk)
+    pose proof (no_overtake_step l fa qa_ fb (eseq eb) k ltac:(lia) (HF k Hk) (K k Hk)
                   (Wa k ltac:(lia)) (Wa (S k) ltac:(lia)) Qb G) as H.
     specialize (Hlt k Hk Hq). destruct H as [H|[H _]]; lra.
   Qed.
@@ -198,14 +234,15 @@ Section Run.
   Theorem fifo_among_equals l fa qa_ fb qb i j :
     j < length acts ->
     waits_through T l fa qa_ i (S j) ->
+    (forall k, i <= k <= j -> holder_free (T k) l) ->
     (forall k, i <= k <= j -> keyed (T k) l) ->
     (qa_ < qb)%Z ->
     (forall k, i <= k <= j -> queued_at (T k) l fb qb ->
                (waiter_prio (T k) l fa == waiter_prio (T k) l fb)%Q) ->
     forall k, i <= k <= j -> queued_at (T k) l fb qb -> ~ granted_at T l fb k.
   Proof.
-    intros Hj Wa K Hseq Heq k Hk Qb G.
-    pose proof (no_overtake_step l fa qa_ fb qb k ltac:(lia) (K k Hk)
+    intros Hj Wa HF K Hseq Heq k Hk Qb G.
+    pose proof (no_overtake_step l fa qa_ fb qb k ltac:(lia) (HF k Hk) (K k Hk)
                   (Wa k ltac:(lia)) (Wa (S k) ltac:(lia)) Qb G) as H.
     specialize (Heq k Hk Qb). destruct H as [H|[_ H]]; [lra|lia].
   Qed.
@@ -221,12 +258,13 @@ Section Run.
   Theorem no_overtake_flat l fa qa_ fb i j :
     j < length acts ->
     waits_through T l fa qa_ i (S j) ->
+    (forall k, i <= k <= j -> holder_free (T k) l) ->
     (forall k, i <= k <= j -> flat (T k) l) ->
     (forall k, i <= k <= j -> In fb (objs (T k) l) ->
                (waiter_prio (T k) l fa < waiter_prio (T k) l fb)%Q) ->
     forall k, i <= k <= j -> ~ granted_at T l fb k.
   Proof.
-    intros Hj Wa F. apply (no_overtake l fa qa_ fb i j); auto. intros k Hk. apply flat_keyed. now apply F.
+    intros Hj Wa HF F. apply (no_overtake l fa qa_ fb i j); auto. intros k Hk. apply flat_keyed. now apply F.
   Qed.
 
   (* plain asyncio tasks count as priority 0: among plain tasks the lock is FIFO, as asyncio.Lock;
@@ -234,6 +272,7 @@ Section Run.
   Theorem fifo_plain_tasks l fa qa_ fb qb i j :
     j < length acts ->
     waits_through T l fa qa_ i (S j) ->
+    (forall k, i <= k <= j -> holder_free (T k) l) ->
     (forall k, i <= k <= j -> flat (T k) l) ->
     (qa_ < qb)%Z ->
     (forall k, i <= k <= j ->
@@ -241,7 +280,7 @@ Section Run.
        is_prio_task (T k) (task_of_fut (getl (T k) l) fb) = false) ->
     forall k, i <= k <= j -> queued_at (T k) l fb qb -> ~ granted_at T l fb k.
   Proof.
-    intros Hj Wa F Hseq Hpl. apply (fifo_among_equals l fa qa_ fb qb i j); auto.
+    intros Hj Wa HF F Hseq Hpl. apply (fifo_among_equals l fa qa_ fb qb i j); auto.
     - intros k Hk. apply flat_keyed. now apply F.
     - intros k Hk _. destruct (Hpl k Hk) as [A B]. unfold waiter_prio, wprio.
       unfold is_prio_task in A, B.
